@@ -24,7 +24,7 @@ e("measurement-draw-uses-generator", ["C10", "C20"], (BACK, "if prob <= np.rando
 e("add-gate-statement-order", ["C11", "C09"],
   (CIRC, "        # Track qubit indices\n        for q in all_involved_qubits:\n            self._qubit_indices.add(q)\n\n        # Keep track of the total gate count\n        self._gate_counts[gate.name] = self._gate_counts.get(gate.name, 0) + 1\n",
    "        # Keep track of the total gate count\n        self._gate_counts[gate.name] = self._gate_counts.get(gate.name, 0) + 1\n\n        # Track qubit indices\n        for q in all_involved_qubits:\n            self._qubit_indices.add(q)\n"))
-e("shots-sampled-in-small-chunks", ["C01", "C02"], (BACK, "            chunk_size = 10**7\n            n_chunks = self.n_shots // chunk_size", "            chunk_size = 37\n            n_chunks = self.n_shots // chunk_size"))
+e("shots-sampled-in-small-chunks", ["C01", "C02"], (BACK, "            chunk_size = 10**7\n            if os.environ.get", "            chunk_size = 37\n            if os.environ.get"))
 e("shots-sampled-with-multinomial", ["C01", "C02"],
   (BACK, "            for i in range(n_chunks+1):\n                this_chunk = self.n_shots % chunk_size if i == n_chunks else chunk_size\n                samples = distr.rvs(size=this_chunk)\n                freqs_shots += Counter(samples)",
    "            counts = np.random.multinomial(self.n_shots, np.array(pk) / np.sum(pk))\n            freqs_shots = Counter({x: int(c) for x, c in zip(xk, counts) if c})"))
@@ -39,7 +39,7 @@ e("copy-preserves-trimmed-width", ["C11", "C09"],
   (CIRC, "        return Circuit(copy.deepcopy(self._gates), n_qubits=self._qubits_simulated, name=self.name, cmeasure_control=copy.deepcopy(self._cmeasure_control))",
    "        c = Circuit(copy.deepcopy(self._gates), n_qubits=self._qubits_simulated, name=self.name, cmeasure_control=copy.deepcopy(self._cmeasure_control))\n        c._qubit_indices = set(self._qubit_indices)\n        return c"))
 e("remove-indices-with-counter", ["C18", "C10"],
-  (HIST, "        new_counts = dict()\n        for bitstring, counts in self.counts.items():\n            new_bitstring = \"\".join([bitstring[qubit_i] for qubit_i in range(len(bitstring)) if qubit_i not in indices])\n            new_counts[new_bitstring] = new_counts.get(new_bitstring, 0) + counts\n        self.counts = new_counts",
+  (HIST, "        new_counts = dict()\n        for bitstring, counts in self.counts.items():\n            new_bitstring = \"\".join([bitstring[qubit_i] for qubit_i in range(len(bitstring)) if qubit_i not in indices])\n            new_counts[new_bitstring] = new_counts.get(new_bitstring, 0) + counts\n\n        self.counts = new_counts",
    "        new_counts = Counter()\n        keep = [qubit_i for qubit_i in range(self.n_qubits) if qubit_i not in indices] if self.counts else []\n        for bitstring, counts in self.counts.items():\n            new_counts[\"\".join(bitstring[qubit_i] for qubit_i in keep)] += counts\n        self.counts = dict(new_counts)"))
 e("merge-rotations-builds-new-gates", ["C09", "C11"],
   (CIRC, "                    g_prev.is_variational |= gate.is_variational\n                    g_prev.parameter += gate.parameter", "                    g_prev.is_variational = g_prev.is_variational or gate.is_variational\n                    g_prev.parameter = g_prev.parameter + gate.parameter"))
